@@ -84,6 +84,79 @@ fn matches(v: &Value, d: &B, id: usize) -> bool {
     }
 }
 
+/// the Value the descriptor denotes, built by the harness (no decoder involved)
+fn value_of(d: &B, id: usize) -> Value<'static> {
+    let x = d.node(id);
+    match x.kind {
+        K_NULL => Value::Null,
+        K_TRUE => Value::Bool(true),
+        K_FALSE => Value::Bool(false),
+        K_NUM => Value::Number(d.num(&x)),
+        K_STR => Value::String(std::borrow::Cow::Owned(string_at(d, x.off, x.len))),
+        K_ARR => {
+            let mut v = Vec::with_capacity(x.cnt);
+            let mut i = 0;
+            while i < x.cnt {
+                v.push(value_of(d, x.kids[i]));
+                i += 1;
+            }
+            Value::Array(v)
+        }
+        _ => {
+            let mut m = std::collections::BTreeMap::new();
+            let mut i = 0;
+            while i < x.cnt {
+                m.insert(string_at(d, x.koff[i], x.klen[i]), value_of(d, x.kids[i]));
+                i += 1;
+            }
+            Value::Object(m)
+        }
+    }
+}
+fn string_at(d: &B, off: usize, len: usize) -> String {
+    let mut v = Vec::with_capacity(len);
+    let mut i = 0;
+    while i < len {
+        v.push(d.b[off + i]);
+        i += 1;
+    }
+    unsafe { String::from_utf8_unchecked(v) }
+}
+
+/// encoder vs layout: encoding the value the descriptor denotes gives exactly the README bytes
+fn encode(d: &B) {
+    let v = value_of(d, d.root);
+    let out = v.to_vec();
+    assert!(same(&out, &d.b, d.n), "encoding is exactly the README layout: header with kind and count, one entry word per element with the exact payload length, keys once, sorted, ahead of the values, shortest numbers");
+    core::mem::forget((v, out));
+}
+
+/// decoder on scalar documents: exactly the stored scalar comes back
+fn decode_scalar_doc(d: &B) {
+    let r = parse_jsonb(d.bytes());
+    assert!(r.is_ok(), "a document in the documented layout decodes");
+    let v = r.unwrap();
+    let x = d.node(d.root);
+    let ok = match &v {
+        Value::Null => x.kind == K_NULL,
+        Value::Bool(b) => (x.kind == K_TRUE && *b) || (x.kind == K_FALSE && !*b),
+        Value::Number(n) => x.kind == K_NUM && same_num(n, &d.num(&x)),
+        Value::String(s) => x.kind == K_STR && str_is(s, d, x.off, x.len),
+        _ => false,
+    };
+    assert!(ok, "the decoded scalar is the stored scalar: same kind, number bit for bit in the same representation, same string bytes");
+    core::mem::forget(v);
+}
+
+/// decoder on containers: shape and leaves of the decoded tree (one level)
+fn decode_flat(d: &B) {
+    let r = parse_jsonb(d.bytes());
+    assert!(r.is_ok(), "a document in the documented layout decodes");
+    let v = r.unwrap();
+    assert!(matches(&v, d, d.root), "the decoded value is the document: same shape, strings, key sets, numbers bit for bit");
+    core::mem::forget(v);
+}
+
 fn roundtrip(d: &B) {
     let r = parse_jsonb(d.bytes());
     assert!(r.is_ok(), "a document in the documented layout decodes");
@@ -96,7 +169,24 @@ fn roundtrip(d: &B) {
 }
 
 //@ props: C01
-//@ timeout: 900
+//@ timeout: 1200
+//@ harness: c01_decode_scalar_a, c01_decode_scalar_b, c01_decode_arr, c01_encode_scalar, c01_encode_arr, c01_encode_obj, c01_encode_nested, c01_encode_empty
+//@ desc: decoder: scalar documents of all 11 (kind,width) classes and [n9,null,s1] built from the README layout with symbolic payloads decode to exactly that value (numbers bit for bit in the same representation, exact string bytes); encoder: the Value denoted by the descriptor (built by the harness, symbolic payloads) encodes byte for byte to the README layout for scalars of all classes, [x,y,s], {k:x} (single member), [[s],n] / [x,{k:y},n] and the empty containers [] {} [{},[]]; the number codec itself is c18_codec_roundtrip over all 64-bit values
+//@ fns: parse_jsonb, Decoder::decode_jsonb, Decoder::decode_scalar, Decoder::decode_array, Decoder::decode_jentries, Number::decode, Encoder::encode, Encoder::encode_scalar, Encoder::encode_array, Encoder::encode_object, Encoder::encode_value, Encoder::reserve_jentries, Encoder::replace_jentry, Number::compact_encode
+//@ bounds: depth 2, <= 3 children, strings/keys <= 2 bytes, objects with one member
+//@ stubs: drop_in_place -> no-op | core::str::from_utf8 -> specification model
+//@ outside: decoding objects and nested containers into the Value tree, and the decode -> re-encode composition on containers (Value is an enum behind heap pointers: not reached, DESIGN §0.5); objects with several members on the encoder side
+harness!(c01_decode_scalar_a, split1(6, |i| decode_scalar_doc(&B::build(&lf(CLS[i])))));
+harness!(c01_decode_scalar_b, split1(5, |i| decode_scalar_doc(&B::build(&lf(CLS[6 + i])))));
+harness!(c01_decode_arr, decode_flat(&B::build(&arr(&[leaf(K_NUM, 9), leaf(K_NULL, 0), leaf(K_STR, 1)]))));
+harness!(c01_encode_scalar, split1(NCLS, |i| encode(&B::build(&lf(CLS[i])))));
+harness!(c01_encode_arr, split1(2, |k| if k == 0 { encode(&B::build(&arr(&[leaf(K_NUM, 9), leaf(K_NULL, 0), leaf(K_STR, 2)]))) } else { encode(&B::build(&arr(&[leaf(K_NUM, 1), leaf(K_NUM, 3), leaf(K_NUM, 5)]))) }));
+harness!(c01_encode_obj, split1(2, |k| if k == 0 { encode(&B::build(&obj(&[1], &[leaf(K_NUM, 2)]))) } else { encode(&B::build(&obj(&[2], &[leaf(K_STR, 1)]))) }));
+harness!(c01_encode_nested, split1(2, |k| if k == 0 { encode(&B::build(&arr(&[arr(&[leaf(K_STR, 1)]), leaf(K_NUM, 2)]))) } else { encode(&B::build(&arr(&[leaf(K_TRUE, 0), obj(&[1], &[leaf(K_NUM, 9)]), leaf(K_NUM, 2)]))) }));
+harness!(c01_encode_empty, split1(3, |k| match k { 0 => encode(&B::build(&arr(&[]))), 1 => encode(&B::build(&obj(&[], &[]))), _ => encode(&B::build(&arr(&[obj(&[], &[]), arr(&[])]))) }));
+
+//@ props: UNREACHED-C01
+//@ timeout: 1800
 //@ harness: c01_scalar, c01_scalar_b
 //@ desc: scalar documents of all 11 (kind,width) classes built from the README layout with symbolic payloads: parse_jsonb returns exactly that value and to_vec reproduces the bytes
 //@ fns: parse_jsonb, Decoder::decode_jsonb, Decoder::decode_scalar, Number::decode, Encoder::encode, Encoder::encode_scalar, Encoder::encode_value, Number::compact_encode
@@ -105,7 +195,7 @@ fn roundtrip(d: &B) {
 harness!(c01_scalar, split1(6, |i| roundtrip(&B::build(&lf(CLS[i])))));
 harness!(c01_scalar_b, split1(5, |i| roundtrip(&B::build(&lf(CLS[6 + i])))));
 
-//@ props: C01
+//@ props: UNREACHED-C01
 //@ timeout: 1200
 //@ harness: c01_shape_0, c01_shape_1, c01_shape_2, c01_shape_3, c01_shape_4, c01_shape_8, c01_shape_67
 //@ desc: container documents [x,y,s], [[x],y], [x,{k:y},n], {k:x,kk:y}, {"":x,k:[y]}, {k:{j:x},k':y,kk:null}, [] and {} built from the README layout (one class assignment per shape mixing all payload widths 0/1/2/3/5/9; symbolic payloads and key bytes, keys sorted unique): decode gives exactly that tree, re-encode gives the identical bytes
@@ -123,13 +213,13 @@ harness!(c01_shape_67, split1(2, |k| shapes_split(6 + k, &CLS_T, 1, |d| roundtri
 //@ props: C01
 //@ timeout: 300
 //@ expect: twin
-//@ desc: vacuity twin: decoding a 2-element array claimed to fail — must be refuted
+//@ desc: vacuity twin: decoding a number document claimed to fail — must be refuted
 //@ fns: parse_jsonb
 #[kani::proof]
 #[kani::unwind(3)]
 #[kani::stub(std::ptr::drop_in_place, noop_drop)]
 fn c01_twin_must_fail() {
-    let d = B::build(&arr(&[leaf(K_NUM, 2), leaf(K_STR, 1)]));
+    let d = B::build(&leaf(K_NUM, 2));
     let r = parse_jsonb(d.bytes());
     let bad = r.is_err();
     core::mem::forget(r);
